@@ -751,9 +751,12 @@ class CodeGen:
                 yield from origin_bubble.value.set(asm.State(self.ap))
                 static_size = self.array_size(el_type, length)
                 # We must advance ap before, not after we write values
-                # It should be fine not to update self.stack yet though.
+                # The array occupies its space while the values are being
+                # evaluated, so stack checks made in there must count it.
                 yield asm.Metadata('Array allocation (ArrayLiteral)')
                 yield asm.Add(self.ap, asm.State(self.ap), asm.IntLiteral(static_size))
+                self.stack = self.stack.add(static_array_size=static_size)
+                self.checkpoints.update(self.stack.static_size)
                 if el_type == DataType.BOOL:
                     foundation = self.pack_bools([
                         isinstance(el_expr, ast.BoolValue) and el_expr.data
@@ -801,6 +804,8 @@ class CodeGen:
                         offset += stride
                     assert offset == 0
 
+                # create_new_stack_array does the permanent accounting
+                self.stack = self.stack.add(static_array_size=-static_size)
                 access_mode = AccessMode.R if expr.type.const else AccessMode.RW
                 return self.create_new_stack_array(
                     ConcreteArrayType(expr.type.el_type, access_mode),
